@@ -98,6 +98,11 @@ def plan(tier, seed):
         to_tag, to_doc, to_tok = 900, 900, 900
     # a valueless attribute followed by an attribute whose *name* is symbolic (names are not dict keys here)
     tag_jobs += [['<x b ', 0, '="v">'], ['<x b ', 0, 1, '="v">'], ['<x b', 0, 1, '=v c>'], ['<x ', 0, ' ', 1, '=v>']]
+    # tag soup: text inside a tag that is not attribute syntax (kept verbatim since fix 1a5be7d)
+    soup = [['<x k="', 0, ' j=f>t</x>'], ['<x k=c"', 0, ' e=f>t</x>'], ['<x k = ', 0, '>t</x>'], ['<x k = ', 0, ' j="1">t</x>'],
+            ['<a>t</a ', 0, '<b>x</b>'], ['<x k="1"', 0, ' j=\'2\'>t</x>']]
+    tag_jobs += [sh for sh in soup if sh[0].startswith('<x')]
+    doc_jobs += soup
     fam_cache = dict(name='verbatim_through_shared_module_cache', module=H, fn='cached_pair', jobs=[{}], timeout=900, vacuity=1,
                      mutants=[{'name': 'digest_folds_line_endings', 'cfg': {}}])
     fams = [
